@@ -59,12 +59,65 @@ if MODEL:
 
     _EQ_TIMEOUT = 8000
 
+    def _ite_conditions(t):
+        """conditions of if-then-else subterms that contain no further if-then-else"""
+        out, stack, seen = {}, [t], set()
+        while stack:
+            x = stack.pop()
+            if x.get_id() in seen:
+                continue
+            seen.add(x.get_id())
+            if z3.is_app_of(x, z3.Z3_OP_ITE):
+                cond = x.arg(0)
+                if not _has_ite(cond):
+                    out[cond.get_id()] = cond
+            stack.extend(x.children())
+        return list(out.values())
+
+    _HAS_ITE = {}
+
+    def _has_ite(t):
+        key = t.get_id()
+        if key in _HAS_ITE:
+            return _HAS_ITE[key][1]
+        r = z3.is_app_of(t, z3.Z3_OP_ITE) or any(_has_ite(ch) for ch in t.children())
+        _HAS_ITE[key] = (t, r)
+        return r
+
+    def resolve_ites(c, t, rounds=12):
+        """decide if-then-else conditions that the path condition settles (index look-ups of sampler)"""
+        for _ in range(rounds):
+            if not _has_ite(t):
+                break
+            conds = _ite_conditions(t)
+            pairs = []
+            for cond in conds:
+                for val, neg in ((True, z3.Not(cond)), (False, cond)):
+                    c.solver.push()
+                    try:
+                        c.solver.set("timeout", 3000)
+                        c.solver.add(neg)
+                        r = c.solver.check()
+                    finally:
+                        c.solver.pop()
+                    if r == z3.unsat:
+                        pairs.append((cond, z3.BoolVal(val)))
+                        break
+            if not pairs:
+                break
+            t = z3.simplify(z3.substitute(t, *pairs))
+        return t
+
     def equal_terms(a, b):
         """True / False(model) / None(unknown) : a == b under the current path condition"""
         if ca._same(a, b):
             return True, None
         ta, tb = ca.tz(a), ca.tz(b)
         c = ctx()
+        if _has_ite(ta) or _has_ite(tb):
+            ta, tb = resolve_ites(c, ta), resolve_ites(c, tb)
+            if ta.eq(tb):
+                return True, None
         if c.subst:
             ta, tb = z3.simplify(c.normalize(ta)), z3.simplify(c.normalize(tb))
             if ta.eq(tb):
